@@ -76,8 +76,60 @@ func testSkipped(testID, runOnly string) bool {
 		}
 	}
 
-	matched, _ := regexp.MatchString(runOnly, testID)
-	return !matched
+	return !matchesRunOnly(runOnly, testName)
+}
+
+// matchesRunOnly reports whether `go test -run runOnly` selects the test testName.
+//
+// Like the test runner it matches the pattern level by level: the i-th `/` separated
+// element of the pattern against the i-th element of the test name.
+func matchesRunOnly(runOnly, testName string) bool {
+	patterns := splitRunOnly(runOnly)
+	for i, elem := range strings.Split(testName, "/") {
+		if i >= len(patterns) {
+			break
+		}
+
+		if matched, _ := regexp.MatchString(patterns[i], elem); !matched {
+			return false
+		}
+	}
+
+	return true
+}
+
+// splitRunOnly splits the -run pattern on `/` that are not inside `[]` or `()`.
+func splitRunOnly(s string) []string {
+	parts := []string{}
+	depthSquare, depthParen, start := 0, 0, 0
+
+	for i := 0; i < len(s); i++ {
+		switch s[i] {
+		case '\\':
+			i++
+		case '[':
+			depthSquare++
+		case ']':
+			if depthSquare > 0 {
+				depthSquare--
+			}
+		case '(':
+			if depthSquare == 0 {
+				depthParen++
+			}
+		case ')':
+			if depthSquare == 0 && depthParen > 0 {
+				depthParen--
+			}
+		case '/':
+			if depthSquare == 0 && depthParen == 0 {
+				parts = append(parts, s[start:i])
+				start = i + 1
+			}
+		}
+	}
+
+	return append(parts, s[start:])
 }
 
 func isFileSkipped(dir, filename, runOnly string) bool {
